@@ -205,7 +205,13 @@ func newSigningHandler(handler http.Handler, config *UpstreamConfig, signer *Req
 		}
 
 		if signer != nil {
-			signer.Sign(req)
+			if err := signer.Sign(req); err != nil {
+				// never forward what could not be signed
+				logger := log.NewLogEntry()
+				logger.WithRequestHost(req.Host).Error(err, "unable to sign request")
+				http.Error(rw, http.StatusText(http.StatusBadRequest), http.StatusBadRequest)
+				return
+			}
 		}
 
 		handler.ServeHTTP(rw, req)
